@@ -1,4 +1,4 @@
-\* liveness on a tiny scope (every run reaches an outcome); the design AS PINNED: the three named deviations are on; the property holds outside them
+\* liveness on a tiny scope: every run reaches an outcome (pinned and repaired designs behave alike here)
 SPECIFICATION Spec
 CONSTANTS
   Scenarios <- ScenariosDef
